@@ -120,10 +120,10 @@ func genKey(goT string, rng *rand.Rand, bf uint) (interface{}, interface{}) {
 		v := iv()
 		return uint64(v), v
 	case "string":
-		s := randAlnum(rng, 1+rng.Intn(12))
+		s := randAlnum(rng, rng.Intn(13)) // the empty key too
 		return s, toInts([]byte(s))
 	default:
-		b := make([]byte, 1+rng.Intn(10))
+		b := make([]byte, rng.Intn(11))
 		rng.Read(b)
 		return b, toInts(b)
 	}
